@@ -1,5 +1,5 @@
 (** C14 — enclosure of the Wright-omega iteration (model over R, exact arithmetic): for every
-    argument in [1, 1000] the returned value solves  w + ln w = z  to 1e-6.  Arguments of the
+    argument in [0, 1000] (the whole domain on which the Rust function does not panic, up to 1000) the returned value solves  w + ln w = z  to 1e-6.  Arguments of the
     exponential cone's primal gradient are > 1 for interior points; above 1000 and the effect
     of floating-point rounding are not covered. *)
 From Coq Require Import Reals Lra.
@@ -19,16 +19,23 @@ Proof.
   split; interval with (i_bisect z, i_taylor z, i_degree 8, i_depth 24).
 Qed.
 
+Lemma wright_taylor_low z : 0 <= z <= 1 -> Rltb z (1 + PI) = true -> wright_residual_ok z.
+Proof.
+  intros hz hb. unfold wright_residual_ok, wright_omega, recip; cbn -[ln PI]. rewrite hb.
+  split; interval with (i_bisect z, i_taylor z, i_degree 8, i_depth 24).
+Qed.
+
 Lemma wright_asym_branch z : 4.1415 <= z <= 1000 -> Rltb z (1 + PI) = false -> wright_residual_ok z.
 Proof.
   intros hz hb. unfold wright_residual_ok, wright_omega, recip; cbn -[ln PI]. rewrite hb.
   split; interval with (i_bisect z, i_taylor z, i_degree 8, i_depth 30).
 Qed.
 
-Theorem wright_omega_enclosure : forall z, 1 <= z <= 1000 -> wright_residual_ok z.
+Theorem wright_omega_enclosure : forall z, 0 <= z <= 1000 -> wright_residual_ok z.
 Proof.
   intros z hz. pose proof PI_lo. pose proof PI_hi.
   destruct (Rltb z (1 + PI)) eqn:e.
-  - apply wright_taylor_branch; auto. apply Rltb_true in e. lra.
+  - destruct (Rle_dec z 1) as [h1|h1]; [apply wright_taylor_low; auto; lra|].
+    apply wright_taylor_branch; auto. apply Rltb_true in e. lra.
   - apply wright_asym_branch; auto. apply Rltb_false in e. lra.
 Qed.
